@@ -33,8 +33,8 @@ MANIFEST = {
                   'property is relational).  Exploration level.',
     'level_note': 'Trusts the renderer, CPython datetime and the C library\'s local-time names; tzlocal behaviour itself is C08/C04\'s subject.',
 }
-PLAN = {'quick': {'shards': 4, 'timeout': 400, 'budget': 45},
-        'thorough': {'shards': 16, 'timeout': 1800, 'budget': 420}}
+PLAN = {'quick': {'shards': 4, 'timeout': 1800, 'budget': 900},
+        'thorough': {'shards': 16, 'timeout': 7200, 'budget': 2400}}
 N_ROUNDS = {'quick': 2500, 'thorough': 25000}
 TZS = ['UTC', 'America/New_York', 'Europe/London', 'Asia/Kolkata']
 FILLER = ['Today', 'meeting', 'report', 'around', 'about', 'held', 'was', 'the', 'is', 'our', 'next', 'release', 'planned',
